@@ -79,6 +79,16 @@ type prefixedConn struct {
 	off    int
 }
 
+// CloseWrite forwards a write-shutdown to the wrapped connection so the relay
+// can pass the upstream's end of stream on to the client (the embedded
+// net.Conn interface hides the TCP connection's CloseWrite).
+func (c *prefixedConn) CloseWrite() error {
+	if wc, ok := c.Conn.(WriteCloser); ok {
+		return wc.CloseWrite()
+	}
+	return nil
+}
+
 func (c *prefixedConn) TakeRelaySegments() [][]byte {
 	prefix := c.TakeRelayPrefix()
 	if len(prefix) == 0 {
